@@ -214,11 +214,34 @@ type robustWorld struct {
 	point   string
 	// rootCause: a panic or a deadlock has been reported for this execution
 	rootCause bool
+	// extraDeletes: non-persistent entities the script may have added (each
+	// either exists at the departure or does not, depending on the schedule)
+	extraDeletes int
 }
 
 func newRobustWorld(point string, ch vrt.Chooser) *robustWorld {
+	return newRobustWorldOpt(point, ch, false)
+}
+
+// keepNonPing removes ping answers from a client's log (the peers ping to stay
+// awake while the offender idles).
+func keepNonPing(c *world.Client) {
+	var keep []*world.Recv
+	for _, m := range c.All() {
+		if m.Type != 39 && m.Type != 1 {
+			keep = append(keep, m)
+		}
+	}
+	c.Log = append(c.Log[:0], keep...)
+	c.ResetTaken()
+}
+
+// newRobustWorldOpt: with exploreOffender the offender's receiver, sender and
+// summary-worker threads are scheduled like any other thread (S3); everybody
+// else's plumbing threads stay eager.
+func newRobustWorldOpt(point string, ch vrt.Chooser, exploreOffender bool) *robustWorld {
 	key, _ := crypto.HexToECDSA(c18Key)
-	w := world.New(world.Config{Prod: true, Modules: []string{"vikja", "odal", "dagaz"}, PrivateKey: key, IdleTimeout: 5 * time.Minute, SyncInterval: time.Hour}, ch)
+	w := world.New(world.Config{Prod: true, Modules: []string{"vikja", "odal", "dagaz"}, PrivateKey: key, IdleTimeout: 5 * time.Minute, SyncInterval: time.Minute}, ch)
 	s := w.S
 	s.EagerLabels = []string{eagerPrefix}
 	s.NoPreempt = true
@@ -229,7 +252,22 @@ func newRobustWorld(point string, ch vrt.Chooser) *robustWorld {
 	}
 	r.baseCli = gauge("ws_connected_clients")
 	x.Base.Sessions = gauge("session_count")
-	x.conn("v", "o")
+	x.conn("v")
+	if exploreOffender {
+		var root *vrt.Thread
+		s.EagerFn = func(t *vrt.Thread) bool {
+			if !strings.HasPrefix(t.Label, eagerPrefix) {
+				return false
+			}
+			return root == nil || t.Root() != root
+		}
+		x.C["o"] = w.Connect("o")
+		root = x.C["o"].Thread
+		w.Run()
+		x.C["o"].Take()
+	} else {
+		x.conn("o")
+	}
 	r.v, r.o = x.C["v"], x.C["o"]
 	x.join("v", "")
 	if point != "unjoined" {
@@ -304,7 +342,7 @@ func (r *robustWorld) judge(input string, mustEnd bool) {
 				r.fail("teardown", "goroutine-left:"+t.Label, "%s: goroutine of the ended connection still alive: %s", input, t.Describe())
 			}
 		}
-		if r.p != nil && r.opid != 0 {
+		if r.p != nil && r.opid != 0 && !r.p.Closed {
 			leaves, dels := 0, 0
 			for _, m := range r.p.Take() {
 				switch v := m.Msg.(type) {
@@ -316,7 +354,7 @@ func (r *robustWorld) judge(input string, mustEnd bool) {
 					dels++
 				}
 			}
-			if leaves != 1 || dels != 1 {
+			if leaves != 1 || dels < 1 || dels > 1+r.extraDeletes {
 				r.fail("departure", fmt.Sprintf("peer-told-%d-leaves-%d-deletes", leaves, dels), "%s: the peer must be told once about the departure and once about the removed non-persistent entity; got %d / %d", input, leaves, dels)
 			}
 		}
@@ -351,7 +389,12 @@ func (r *robustWorld) judge(input string, mustEnd bool) {
 	rid := r.v.NextReqID()
 	r.v.SendMsg(&hagallpb.Request{Type: hagallpb.MsgType_MSG_TYPE_PING_REQUEST, Timestamp: w.NextTS(), RequestId: rid})
 	w.Run()
-	got := r.v.Take()
+	var got []*world.Recv
+	for _, m := range r.v.Take() {
+		if m.Type != 1 { // SYNC_CLOCK heartbeats are not traffic
+			got = append(got, m)
+		}
+	}
 	if len(respFor(got, rid)) != 1 || len(got) != 1 {
 		r.fail("witness", "witness-disturbed", "%s: the witness in another session got %d messages for its ping", input, len(got))
 	}
